@@ -937,6 +937,12 @@ func (fr *Frame) execNext(i *ssa.Next) {
 	}
 	vc.setHeap(fr.st, visName+"#count", SInt, ite(okv.T, sx("+", cnt, "1"), cnt))
 	fr.set(i, &Val{S: "Tuple", Typ: i.Type(), Tup: []*Val{okv, k, v}})
+	{
+		saved := fr.reach
+		fr.reach = vc.define("next.taken", SBool, and(saved, okv.T))
+		fr.ghostAfter("next", "", map[string]*Val{"k": k, "v": v})
+		fr.reach = saved
+	}
 	fr.onRangeNext(rng, i, okv, k, v)
 }
 
